@@ -167,6 +167,7 @@ def parseEvent (ts : List String) : Option CEvent :=
   | ["drop"] => some (.plain .wsClose)
   | ["wsfail"] => some (.plain .wsFail)
   | ["tcpup"] => some (.plain .tcpUp)
+  | ["wsclosing"] => some (.plain .wsClosing)
   | ["failinitial"] => some (.plain .failInitial)
   | ["svcstopped"] => some (.plain .svcStopped)
   | ["welcome", v] => (bool? v).map (fun b => .plain (.welcome b))
